@@ -378,13 +378,20 @@ func cmdCheck(args []string) int {
 	os.MkdirAll(filepath.Join(verifDir, "replays"), 0o755)
 	var violLines []string
 	confirmed := 0
-	seenLabel := map[string]bool{}
+	// Per failing label several counterexamples (different paths) may be tried natively: the first that
+	// reproduces is reported. One that does not reproduce depends on a modelling artefact (e.g. a value
+	// of an uninterpreted hash that the real function does not take); the label is inconclusive only
+	// if none of the tried ones reproduces.
+	const maxLabels, maxTries = 6, 6
+	doneLabel := map[string]bool{}
+	tries := map[string]int{}
+	notReproduced := map[string]string{}
 	for i, v := range violations {
 		lk := v.Harness + "|" + v.Kind + "|" + v.Label
-		if seenLabel[lk] || len(seenLabel) >= 4 {
-			continue // one replay per failing label is enough to report
+		if doneLabel[lk] || tries[lk] >= maxTries || (tries[lk] == 0 && len(tries) >= maxLabels) {
+			continue
 		}
-		seenLabel[lk] = true
+		tries[lk]++
 		path := filepath.Join(verifDir, "replays", fmt.Sprintf("%s-%d.json", c.ID, i))
 		h := findHarness(c, v.Harness)
 		writeReplayFile(path, c, h, v, *tier)
@@ -394,14 +401,20 @@ func cmdCheck(args []string) int {
 			if ok {
 				status = "reproduced"
 			} else {
-				status = "NOT-reproduced"
-				inconclusive = append(inconclusive, fmt.Sprintf("counterexample for %s/%s did not reproduce natively (engine or stub fault): %s", v.Harness, v.Label, lastLines(out, 6)))
+				notReproduced[lk] = fmt.Sprintf("counterexample for %s/%s did not reproduce natively (engine or stub fault): %s", v.Harness, v.Label, lastLines(out, 6))
 				continue
 			}
 		}
+		doneLabel[lk] = true
+		delete(notReproduced, lk)
 		confirmed++
 		fmt.Printf("counterexample %s: harness=%s kind=%s label=%s %s pos=%s [%s]\n", path, v.Harness, v.Kind, v.Label, v.Msg, v.Pos, status)
 		violLines = append(violLines, fmt.Sprintf("VIOLATION property=%s replay=%s", c.ID, path))
+	}
+	for lk, m := range notReproduced {
+		if !doneLabel[lk] {
+			inconclusive = append(inconclusive, m)
+		}
 	}
 	for id := range knownHit {
 		if f, ok := openIDs[id]; ok {
